@@ -204,6 +204,18 @@ def run(prog: Program, chk: Check):
                  f"remove_module: `{norm(cnode)[:70]}` publishes" + (" (log record -> manager logger -> forward_message)" if "emit" in (desc or "") else "")
                  + " while the departing module is still " + ("subscribed" if early_subs else "in logger_modules") + ": the message is routed to it, its write fails and remove_module recurses past its guard")
 
+    # ---- X the removal itself cannot fail --------------------------------------------------------------------------------------------
+    from .mgr import teardown_socket_calls
+
+    Xr = chk.rule("C07-X", "tearing a departed client's connection down uses close() only, or covers other socket calls with an OSError handler", 1,
+                  "shutdown() on a connection the peer has reset raises OSError(ENOTCONN): remove_module fails half way - no CLIENT_CLOSED, the module stays registered")
+    for fq, c, okx in teardown_socket_calls(prog):
+        Xr.decide(okx, f"{fq}|{norm(c)[:50]}", where(prog.func(MGR, fq), c), "covered by `except OSError` (or broader)",
+                  f"{fq}: `{norm(c)[:60]}` can raise OSError for a client that left by reset; only ConnectionError - or nothing - is caught, so the removal stops before "
+                  "CLIENT_CLOSED is published and before the module is deregistered")
+    if not Xr.instances:
+        Xr.ok(f"{MGR}|teardown", "", "no socket call besides close() on the removal path; the positive example in fixtures/c03_socket_teardown.py matched")
+
     # ---- F funnel ---------------------------------------------------------------------------------------------
     F = chk.rule("C07-F", "every departure detector calls remove_module (directly or via disconnect_module); nothing else closes a client socket", 10,
                  "a detector that forgets the removal leaves a dead client registered")
